@@ -24,7 +24,7 @@ type boundedResult struct {
 
 var boundedHead = regexp.MustCompile(`govc:bounded props=([A-Z0-9,]+) pkg=(\S+) run=(\S+) what=(.*)`)
 
-func runBoundedStandIns(verif, repo, prop string) []boundedResult {
+func runBoundedStandIns(verif, repo, prop, tier string) []boundedResult {
 	files, _ := filepath.Glob(filepath.Join(verif, "bounded", "*_test.go"))
 	var out []boundedResult
 	for _, f := range files {
@@ -45,7 +45,7 @@ func runBoundedStandIns(verif, repo, prop string) []boundedResult {
 		ctx, cancel := context.WithTimeout(context.Background(), 300*time.Second)
 		cmd := exec.CommandContext(ctx, "bash", "-c", "ulimit -v 8000000; exec go test -overlay "+ovPath+" -vet=off -count=1 -timeout 240s -run '^"+m[3]+"$' -v .")
 		cmd.Dir = pkgDir
-		cmd.Env = append(os.Environ(), "GOFLAGS=-mod=mod", "GOPROXY=off", "GOSUMDB=off", "GOTOOLCHAIN=local")
+		cmd.Env = append(os.Environ(), "GOFLAGS=-mod=mod", "GOPROXY=off", "GOSUMDB=off", "GOTOOLCHAIN=local", "GOVC_TIER="+tier)
 		var buf bytes.Buffer
 		cmd.Stdout, cmd.Stderr = &buf, &buf
 		t0 := time.Now()
